@@ -561,12 +561,14 @@ func (h *c12H) check(tag string) {
 		}
 		ctx := "other"
 		switch {
+		case !m.lastLossQualified && m.capChanged:
+			ctx = "after-capability-change" // gobgp took the loss for graceful
+		case !m.lastLossQualified:
+			ctx = "after-non-qualifying-loss"
 		case m.llgrEpisodes > 0:
 			ctx = "after-llgr-phase"
 		case m.capChanged:
 			ctx = "after-capability-change"
-		case !m.lastLossQualified && !m.up:
-			ctx = "after-non-qualifying-loss"
 		}
 		switch {
 		case !m.up && got != m.restarting:
